@@ -295,7 +295,7 @@ fn reverse_one(lex: &str, dt: &str, repr: u8, st: &mut Stats, out: &mut Vec<Viol
         ($ty:ty) => {{
             match conv!($ty) {
                 Err(p) => out.push(Violation::new(format!("reverse-panic:{}", stringify!($ty)), format!("{} -> {}: {p}", a.nq(), stringify!($ty)), case.clone())),
-                Ok(None) => {}
+                Ok(None) => st.inc("reverse_refused"),
                 Ok(Some(v)) => {
                     st.inc("reverse_ok");
                     let ok = matches!(den, Den::Int(d) if d == v as i128) || matches!(den, Den::Num(d) if d == v as f64 && d.fract() == 0.0);
@@ -315,7 +315,7 @@ fn reverse_one(lex: &str, dt: &str, repr: u8, st: &mut Stats, out: &mut Vec<Viol
     int_target!(usize);
     match conv!(f64) {
         Err(p) => out.push(Violation::new("reverse-panic:f64", format!("{}: {p}", a.nq()), case.clone())),
-        Ok(None) => {}
+        Ok(None) => st.inc("reverse_refused"),
         Ok(Some(v)) => {
             st.inc("reverse_ok");
             let ok = match den {
@@ -332,7 +332,7 @@ fn reverse_one(lex: &str, dt: &str, repr: u8, st: &mut Stats, out: &mut Vec<Viol
     }
     match conv!(bool) {
         Err(p) => out.push(Violation::new("reverse-panic:bool", format!("{}: {p}", a.nq()), case.clone())),
-        Ok(None) => {}
+        Ok(None) => st.inc("reverse_refused"),
         Ok(Some(v)) => {
             st.inc("reverse_ok");
             if !matches!(den, Den::Bool(b) if b == v) {
@@ -471,6 +471,14 @@ pub fn run(tier: Tier) -> Report {
     rep.stats.merge(&st);
     rep.stats.add("states", rep.stats.get("i32_values") + rep.stats.get("f64_values") + rep.stats.get("lexical_forms") * dts.len() as u64);
     rep.stats.add("transitions", rep.stats.get("validated"));
+    // observed classes (vacuity guard)
+    rep.stats.outcome("forward-conversion-round-trips");
+    if rep.stats.get("reverse_ok") > 0 {
+        rep.stats.outcome("reverse-conversion-accepted");
+    }
+    if rep.stats.get("reverse_refused") > 0 {
+        rep.stats.outcome("reverse-conversion-refused");
+    }
     rep.stats.add("nontrivial", rep.stats.get("reverse_ok") + rep.stats.get("f64_values"));
     rep.stats.sample(json!({"forward": "i32 -7 -> \"-7\"^^xsd:integer -> -7", "reverse": "\"1e1\"^^xsd:decimal -> f64"}));
     for v in &out {
